@@ -8,18 +8,23 @@ Import ListNotations.
 Local Open Scope Z_scope.
 
 Section HonestRound.
-Variables (c : cfg) (sh : share) (role : N) (h rho ld v fdlen nrc : N).
+Variables (c : cfg) (sh : share) (role : N) (h rho ld v fdlen nrc : N) (rcfull : bool) (nrcj npj : N).
 
 (* what a correct operator [s] broadcasts in round [rho] of height [h]: type [t] in proposal / prepare / commit /
-   (unprepared) round change, well-formed signature, its own id as the only signer; the proposal carries the value
-   and, after the first round, [nrc] round changes as its justification *)
+   round change, well-formed signature, its own id as the only signer; the proposal carries the value and, after
+   the first round, [nrc] round changes (and [npj] prepares) as its justification; a round change of a prepared
+   operator ([rcfull]) carries the prepared value and [nrcj] prepares *)
+(* which messages carry the value: the proposal, and - when the operators are prepared ([rcfull]) - the round change *)
+Definition carries (t : N) : bool := N.eqb t qbftProposalMsgType || (N.eqb t qbftRoundChangeMsgType && rcfull).
+
 Definition hmsg (t s : N) : cmsg :=
   {| c_sig_len := signatureSize; c_sig_zero := false; c_type := t; c_height := h; c_round := rho;
-     c_signers := [s]; c_fd_len := if N.eqb t qbftProposalMsgType then fdlen else 0%N;
-     c_fd_id := if N.eqb t qbftProposalMsgType then v else 0%N;
-     c_root_ok := N.eqb t qbftProposalMsgType;      (* only read for messages that carry data *)
-     c_pj_ok := true; c_pj_len := 0; c_rcj_ok := true;
-     c_rcj_len := if N.eqb t qbftProposalMsgType then nrc else 0%N;
+     c_signers := [s]; c_fd_len := if carries t then fdlen else 0%N;
+     c_fd_id := if carries t then v else 0%N;
+     c_root_ok := carries t;                        (* only read for messages that carry data *)
+     c_pj_ok := true; c_pj_len := if N.eqb t qbftProposalMsgType then npj else 0%N; c_rcj_ok := true;
+     c_rcj_len := if N.eqb t qbftProposalMsgType then nrc
+                  else if N.eqb t qbftRoundChangeMsgType then nrcj else 0%N;
      c_just_ok := true; c_duty_ok := true |}.
 
 Definition honest_item (x : N * N) : Prop :=
@@ -105,10 +110,10 @@ Qed.
 
 Lemma hmsg_just_ok : forall t s, validate_justifications (hmsg t s) = None.
 Proof.
-  intros. unfold validate_justifications. cbn [hmsg c_pj_ok c_pj_len c_rcj_ok c_rcj_len c_type c_just_ok negb N.eqb].
-  cbn [andb]. destruct (N.eqb t qbftProposalMsgType); cbn [negb andb].
-  - rewrite andb_false_r. reflexivity.
-  - reflexivity.
+  intros. unfold validate_justifications. cbn [hmsg c_pj_ok c_pj_len c_rcj_ok c_rcj_len c_type c_just_ok negb].
+  destruct (N.eqb t qbftProposalMsgType); cbn [negb andb].
+  - rewrite !andb_false_r. reflexivity.
+  - destruct (N.eqb t qbftRoundChangeMsgType); cbn [negb andb N.eqb]; rewrite ?andb_false_r; reflexivity.
 Qed.
 
 Lemma hmsg_type_ok : forall t s, honest_item (t, s) -> valid_qbft_type t = true.
@@ -122,10 +127,11 @@ Proof.
 Qed.
 
 Lemma hmsg_full_data : forall t s, honest_item (t, s) ->
-  has_full_data (hmsg t s) = N.eqb t qbftProposalMsgType.
+  has_full_data (hmsg t s) = carries t.
 Proof.
-  intros t s ([->|[->|[->| ->]]] & _); unfold has_full_data, is_decided; cbn; try reflexivity.
-  destruct (N.eqb_spec fdlen 0); [contradiction|reflexivity].
+  intros t s ([->|[->|[->| ->]]] & _); unfold has_full_data, is_decided, carries; cbn; try reflexivity.
+  - destruct (N.eqb_spec fdlen 0); [contradiction|reflexivity].
+  - destruct rcfull; cbn; [|reflexivity]. destruct (N.eqb_spec fdlen 0); [contradiction|reflexivity].
 Qed.
 
 (* the per-signer check and update *)
@@ -165,7 +171,7 @@ Proof.
   rewrite R1, R2, R3, R4, A3. cbn [zero_counts n_proposal n_prepare n_commit n_rc].
   rewrite <- !Hcases, !Hz.
   repeat split; try lia; try assumption.
-  rewrite A4, (hmsg_full_data t s Hh). destruct (N.eqb t qbftProposalMsgType) eqn:Et; [right|left]; [|reflexivity].
+  rewrite A4, (hmsg_full_data t s Hh). destruct (carries t) eqn:Et; [right|left]; [|reflexivity].
   cbn [hmsg c_fd_id]. rewrite Et. reflexivity.
 Qed.
 
@@ -211,7 +217,7 @@ Proof.
       assert (Hpdm : (has_full_data (hmsg t s) &&
                 match ss_pdata ss with Some d => negb (N.eqb d (c_fd_id (hmsg t s))) | None => false end) = false).
       { rewrite Hfdm. destruct Hpd as [-> | ->]; [apply andb_false_r|]. cbn [hmsg c_fd_id].
-        destruct (N.eqb t qbftProposalMsgType) eqn:Et; [rewrite N.eqb_refl|]; reflexivity. }
+        destruct (carries t) eqn:Et; [rewrite N.eqb_refl|]; reflexivity. }
       rewrite Hpdm, Hcv, hmsg_just_ok. split; [reflexivity|].
       destruct (hmsg_record t s (ss_counts ss) Hh) as (cn' & Er & R1 & R2 & R3 & R4). rewrite Er.
       eexists. split; [reflexivity|]. eapply Hother; [reflexivity|].
@@ -222,7 +228,7 @@ Proof.
       unfold current. cbn [ss_slot ss_round ss_counts ss_duties ss_pdata].
       rewrite R1, R2, R3, R4, Hp, Hpr, Hcm, Hrc.
       rewrite <- !Hcases. repeat split; try lia; try assumption.
-      rewrite Hfdm. destruct (N.eqb t qbftProposalMsgType) eqn:Et; [|exact Hpd].
+      rewrite Hfdm. destruct (carries t) eqn:Et; [|exact Hpd].
       destruct Hpd as [-> | ->]; right; cbn [hmsg c_fd_id]; rewrite ?Et; reflexivity.
     + (* the signer's state is from an earlier round of this duty: the round is reset *)
       cbn [hmsg c_height c_round]. rewrite Hsl, N.ltb_irrefl, N.eqb_refl. cbn [andb].
@@ -271,7 +277,7 @@ Proof.
   change (c_height (hmsg t s)) with h. change (c_round (hmsg t s)) with rho.
   assert (E0 : (rho <? firstRound)%N = false) by (apply N.ltb_ge; exact Hrho1).
   rewrite Htime, Hmr, Hmr1, E0, Hround. cbn [orb].
-  rewrite (hmsg_full_data t s Hh). change (c_root_ok (hmsg t s)) with (N.eqb t qbftProposalMsgType).
+  rewrite (hmsg_full_data t s Hh). change (c_root_ok (hmsg t s)) with (carries t).
   rewrite andb_negb_r.
   change (c_duty_ok (hmsg t s)) with true. rewrite duty_ok.
   change (c_signers (hmsg t s)) with [s]. cbn [signers_behavior]. rewrite Hb, Hver.
